@@ -99,6 +99,7 @@ package x509
 //@ func ParseCertificate
 //@ props C11 C02
 //@ arith int
+//@ modifies nothing
 //@ site asn1.Unmarshal#1 as um
 //@ site UnmarshalWithParams#1 as lax
 //@ site parseCertificate#1 as pc
